@@ -59,6 +59,13 @@ func Try(f func()) (p *Panic) {
 					break
 				}
 			}
+
+			// Only panics that come out of the library are results; anything
+			// else (a failed assertion of the harness, rapid stopping a case)
+			// goes on.
+			if len(p.Frames) == 0 {
+				panic(r)
+			}
 		}
 	}()
 
